@@ -45,6 +45,14 @@ STRENGTH_ID = {
  "C07-m7": "a result file holding only a torn first record (1-12 bytes, plain and gz) or a line break before the run", "C07-m8": "restored runs whose earlier run left some evaluations without rows",
  "C18-m7": "caught as built", "C18-m8": "caught as built", "C16-m7": "one action list edited in place between rounds (added before the run; found and fixed 660d6ec on the way)", "C16-m8": "sparse actions whose keys have different types (added before the run)",
  "C02-m7": "caught as built (escalated every-byte cuts)", "C02-m8": "caught as built",
+ "C01-m7": "an evaluator whose params are slow to compute, so that its record arrives after those of evaluators with higher ids", "C01-m8": "caught as built (the translator's template of ChunkTasks no longer matches and chunks of odd length lose tasks)",
+ "C03-m7": "one RejectionCB object (seeds whose first draw falls between the thresholds) for logged environments with different logging propensities and a learner whose scores are far from the logging policy", "C03-m8": "a stateful learner listed for two environments of one chunk, run on worker processes",
+ "C04-m7": "a save file holding 11 environments continued by a save of 13", "C04-m8": "environments derived from a materialized one are read, then the materialized one again",
+ "C06-m7": "categorical actions (finalised to one-hot codes) under the ips modes", "C06-m8": "a learner that states probability 0 now and then",
+ "C08-m7": "real processes: the item stream ends exactly while a replacement worker is being started (a filter that is slow to pickle stretches the window)", "C08-m8": "real processes: one Multiprocessor object used again after a failed call",
+ "C10-m7": "dense actions with missing / empty features next to zeros", "C10-m8": "hash collisions are excused only when crc32(key) mod n_feats predicts them; actions that differ in the name of their one feature",
+ "C15-m7": "learners whose predict understands batches while learn takes one interaction (and the other way round)", "C15-m8": "kwargs given as MappingProxyType, UserDict, OrderedDict or a Mapping class",
+ "C19-m7": "two real worker processes started by CobaMultiprocessor ask the shared cacher for one key at the same moment", "C19-m8": "caught by the scheduled co-simulation once its patched sleep counts polls that never visit the shared lock (before that the run did not come back in time)",
  "C20-m3": "caught as built (interleaved terms such as 'xax')", "C20-m4": "caught as built (number-first mixed sequences)",
 }
 def heading(pid, m):
